@@ -3,21 +3,26 @@ import json
 
 import core
 import scen_iq
+import scen_iq_proc
 
 PROPS = ['Props/C17.lean']
 
 
 def keyfn(case, res, m):
+    if case.get('chooser') == ['os']:
+        return f"{m['rule']}:process"
     cls = 'stop' if case.get('stop') else ('multi-round' if case['rounds'] > 1 else 'one-round')
     return f"{m['rule']}:{cls}"
 
 
 def run(chk):
     chk.audit(PROPS)
-    n = 1400 if chk.tier == 'quick' else 60000
-    core.e1_flow(chk, 'scen_iq', 'iterq', {'C17'},
+    n = 1400 if chk.tier == "quick" else 50000
+    results = core.e1_flow(chk, 'scen_iq', 'iterq', {'C17'},
                  lambda rng: scen_iq.gen_case(rng, chk.tier, rng.choice(['markers', 'markers', '', 'stop'])),
                  n, keyfn=keyfn, corpus=CORPUS)
+    chk.add_obligation('correspondence', 'trace refinement of the real IterableQueue runs by Model/IterQueue.lean (drv iterq, E1)',
+                       not chk.corr_breaks, traces=chk.cov['traces_validated_against_impl'])
     # a small sample is also validated with only the data queue observed (token moves inferred),
     # so that the fall-back used when the private token queues cannot be wrapped stays exercised
     small = []
@@ -31,6 +36,20 @@ def run(chk):
         chk.account(scen_iq, res, 'E1-detsched')
         chk.collect_monitors(res, {'C17'}, keyfn)
         chk.validate('iterq', scen_iq, res)
+    # process variant: real processes, OS schedule (sampled); outcome at quiescent points compared with
+    # what the theorems predict; no trace validation
+    pcases = [scen_iq_proc.gen_case(chk.rng, chk.tier) for _ in range(6 if chk.tier == 'quick' else 160)]
+    import concurrent.futures as cf
+    try:
+        # each case is its own interpreter in its own session (killed afterwards); threads only wait for them
+        with cf.ThreadPoolExecutor(6 if chk.tier == 'quick' else 12) as ex:
+            pres = list(zip(pcases, ex.map(scen_iq_proc.run_case, pcases)))
+    except RuntimeError as e:
+        raise core.InfraError(str(e))
+    chk.account(scen_iq_proc, pres, 'E4-processes')
+    chk.collect_monitors(pres, {'C17'}, keyfn)
+    chk.add_obligation('correspondence', 'process variant: outcome at quiescent points = theorem-predicted state (sampled OS schedules)',
+                       not any(r['monitors'] for _c, r in pres), cases=len(pres))
     if chk.corr_breaks:
         # recogniser: are the runs the repaired model rejects runs of the model of the pinned code?
         brk = [b for b in chk.corr_breaks if b.get('events') is not None][:300]
@@ -54,7 +73,23 @@ def run(chk):
                        'that never start, renew after the last round or not, chooser, seed) run on the real IterableQueue '
                        'with real threads under the deterministic scheduler; non-trivial = at least 3 actors, at least one '
                        'value and at least one context switch; distinct = distinct (case, event trace)')
-    chk.cov['distribution'] = dict(note='events are logged at the linearisation point of each queue operation; '
+    import collections
+    hist = collections.Counter()
+    acts = collections.Counter()
+    for case, res in results:
+        hist[f"m{case['m']}n{case['n']}"] += 1
+        hist[f"rounds={case['rounds']}"] += 1
+        hist[f"cap={case['cap']}"] += 1
+        hist['with_stop_event' if case['resp'] else 'no_stop_event'] += 1
+        if case.get('stop'):
+            hist['stop_requested'] += 1
+        names = {e[0] for e in res.get('events', [])}
+        for nm in names:
+            acts[nm] += 1          # runs that exercised this observable model action
+        if res.get('fine'):
+            hist['fine_observation'] += 1
+    chk.cov['distribution'] = dict(cases=dict(sorted(hist.items())), runs_exercising_event=dict(sorted(acts.items())),
+                                   note='events are logged at the linearisation point of each queue operation; '
                                         'token-queue sizes and queue contents are probed at every quiescent point')
     chk.trusted += TRUSTED
     chk.assumptions += ASSUMPTIONS
@@ -83,7 +118,9 @@ TRUSTED = [
     'the harness builds IterableQueue in thread mode and installs ResponsiveQueue(q, to_stop) itself, because '
     'IterableQueue(q, to_stop=...) picks multiprocessing token queues even for threads (isinstance test after wrapping); '
     'the three token queues are replaced by logging subclasses of queue.Queue with identical behaviour',
-    'process variant (multiprocessing queues / lock) is not driven by the scheduler: covered by the theorems only',
+    'process variant (multiprocessing queues / lock): OS schedule not controlled; a few cases per run are executed with real '
+    'processes and their outcome at quiescent points is compared with the state the theorems predict (no trace validation); '
+    'the quantifier over interleavings is carried by the theorems alone',
 ]
 ASSUMPTIONS = [
     'usage protocol (guards of the model): a supplier puts only before its put_end of the round; renew is called only after '
